@@ -234,7 +234,7 @@ CORPUS = [
 
 def run(ctx):
     ctx.coq_props()
-    n = 56 if ctx.tier == "quick" else 400
+    n = 48 if ctx.tier == "quick" else 400
     rng = ctx.rng
     cases = [json.loads(json.dumps(c)) for c in CORPUS]
     if getattr(ctx, "replay", None) and isinstance(ctx.replay.get("replay"), dict) and "case" in ctx.replay["replay"]:
